@@ -24,7 +24,7 @@ DEEPENING ROUND (after /repo 680d931 repaired Graph(...)):
     C06_raise_frame_fixed / C06_raise_frame are the FULL statements over the whole alphabet; the only hypothesis left on
     the current code is `clean current_cfg`, i.e. the history never executes Node(outputs=[graph input / initializer])
     (SNodeOutputsOwned, finding node-output-owned, cannot be repaired upstream) nor a rejected initializers.update()
-    with an acceptable entry first (SInitUpdate, new finding init-update-partial, C06 only: I1..I7 hold there anyway).
+    with an acceptable entry first (SInitUpdate, finding init-update-partial, C06 only; REPAIRED by /repo 4f0fb1e and flipped in current_cfg).
   * moved from oracle-only into the Coq alphabet (36 ops now), each with invariant + frame proof and inside the tie:
     InitPopItem, InitUpdate (sequential self[k] = v, site SInitUpdate), InitSetDefault, InitIOr (unsupported since
     4b0e698), GSort.  For GSort the ORDER and whether a cycle is found come from the implementation (that is C12's
